@@ -873,6 +873,19 @@ func VH04d_retry_change() {
 	verif.Assert(ep.SetOption(mangos.OptionRetryTime, r2) == nil, lab+"/set-retry-2")
 	g, gerr := ep.GetOption(mangos.OptionRetryTime)
 	verif.Assert(gerr == nil && g.(time.Duration) == r2, "C19/req/RETRY-TIME/get-returns-set-value")
+	if !offFirst && verif.Choice("timer-runs-out-instead", 2) == 1 {
+		// retries were switched off with a retry timer still armed: it may fire once more (one retransmission
+		// that was already scheduled), after which nothing is ever sent again
+		for i := 0; i < 4 && verif.PendingTimers() > 0; i++ {
+			verif.FireTimer()
+		}
+		n := len(p0.Sent) + len(p1.Sent)
+		verif.Assert(n <= 2, lab+"/retransmitted-more-than-once-after-retries-were-switched-off")
+		verif.Assert(verif.PendingCallbackTimers() == 0, lab+"/retry-timer-still-armed-after-retries-were-switched-off")
+		verif.Reach("timer-ran-out-with-retries-off")
+		sock.Close()
+		return
+	}
 	p0.Drop()
 	verif.Quiesce()
 	if offFirst {
